@@ -292,11 +292,10 @@ func Run(c *hx.Ctx) {
 }
 
 func smoke(c *hx.Ctx) {
-	g := newGen(c, 0)
-	h := g.generate()
-	res := runHistory(c, h, true)
-	for i, o := range h.Ops {
-		b, _ := json.Marshal(o)
-		fmt.Println(string(b), res[i])
+	for pi, h := range probes() {
+		res := runHistory(c, h, true)
+		for i, o := range h.Ops {
+			fmt.Printf("probe %d: %-11s %s\n", pi+1, o.Kind, res[i])
+		}
 	}
 }
